@@ -26,9 +26,12 @@ ID = 'C02'
 LEVEL = 'exploration'
 ENGINE = 'bex'
 RULE = (
-    'five complete products: (R) routes x step triples x tables; (E) origin elevation x destination '
+    'complete products: (R) routes x step triples x tables; (E) origin elevation x destination '
     'elevation x tables on one route; (S) all step-fraction triples x routes; (D) one phase with a '
-    'degenerate step fraction; (M) load factor x starting mass x mass-iteration setting x routes. '
+    'degenerate step fraction; (L) ladder of short routes; (M) load factor x starting mass x mass-iteration '
+    'setting x routes; (Q2/Q3/QV) every ordered pair / triple of missions (a route, its reverse, other routes, '
+    'refused missions; tables, load factor and starting mass varying between the calls) flown in sequence on ONE '
+    'builder instance created inside the case, every returned trajectory judged by the same monitor. '
     'A case is non-trivial when a trajectory with >=3 points in every phase was returned and monitored, '
     'or when the mission was refused; distinct = distinct case'
 )
@@ -36,7 +39,8 @@ ASSUMPTIONS = [
     'airports come from the harness file data/C02_airports/airports/airports.csv placed first on the data path',
     'tables: shipped sample model, the legacy-verification model, a synthetic 3-level table with ceiling '
     '39 000 ft and a wide mass range, the sample table cut at FL300 (cruise level outside the table)',
-    'no weather (use_weather=False); builders and performance models are reused across cases inside a worker',
+    'no weather (use_weather=False); builders and performance models are reused across cases inside a worker; '
+    'sequence cases (Q*) create their own builder so that they replay in a fresh process',
     'positions are compared with a private WGS-84 pyproj Geod (trusted primitive)',
     'a raise is never a violation of this property; it is classified (refused:<reason> / error:<type>)',
     'phase boundaries are taken from the returned n_climb and n_cruise; n_descent is not used '
@@ -113,14 +117,22 @@ def _airport_table():
 AIRPORTS = _airport_table()
 
 
-def route_codes(route, oe=None, de=None):
+def route_codes(route, oe=None, de=None, rev=False):
+    """(origin code, destination code); rev=True flies the route backwards (oe/de then describe
+    the airports at the route's nominal origin/destination end, i.e. they travel with the airport)."""
     if route in REAL_ROUTES:
-        return REAL_ROUTES[route]
-    if route == ELEV_ROUTE:
+        o, d = REAL_ROUTES[route]
+    elif route == ELEV_ROUTE:
         th = ELEV['thorough']
-        return f'O{th.index(oe):02d}', f'D{th.index(de):02d}'
-    k = list(ROUTE_POINTS).index(route)
-    return f'Z{k:X}A', f'Z{k:X}B'
+        o, d = f'O{th.index(oe):02d}', f'D{th.index(de):02d}'
+    else:
+        k = list(ROUTE_POINTS).index(route)
+        o, d = f'Z{k:X}A', f'Z{k:X}B'
+    return (d, o) if rev else (o, d)
+
+
+def case_codes(case):
+    return route_codes(case['route'], case['oe'], case['de'], bool(case.get('rev', False)))
 
 
 def _csv_path():
@@ -214,6 +226,41 @@ def _case(sub, **kw):
     return c
 
 
+# -- missions flown in sequence on one builder instance.  An atom is one mission (a leg); the sequence
+# sub-lattices are complete products of atoms, so they contain: the same mission twice, a route and its
+# reverse in both orders, two different routes in both orders, a refused mission before/after/between flown ones.
+ATOMS = {
+    'A': {'route': 'E1000'}, 'A-': {'route': 'E1000', 'rev': True},
+    'B': {'route': 'AM'}, 'B-': {'route': 'AM', 'rev': True},
+    'C': {'route': 'BOSLAX'}, 'C-': {'route': 'BOSLAX', 'rev': True},
+    'P': {'route': 'POLE'}, 'P-': {'route': 'POLE', 'rev': True},
+    'X': {'route': 'T100'},  # refused: too short
+    'H': {'route': 'E1000', 'de': 42000},  # refused: arrival airport above the ceiling
+}  # fmt: skip
+SEQ_STEPS = [50, 50, 50]
+ATOMS_Q2 = {'quick': ['A', 'A-', 'B', 'B-', 'X'], 'thorough': ['A', 'A-', 'B', 'B-', 'C', 'C-', 'P', 'P-', 'X', 'H']}
+TABLE_PAIRS = {
+    'quick': [['sample', 'sample'], ['sample', 'synth3'], ['synth3', 'sample']],
+    'thorough': [['sample', 'sample'], ['sample', 'synth3'], ['synth3', 'sample'], ['synth3', 'synth3'], ['legacy', 'sample']],
+}
+ITERS_Q = {'quick': ['off'], 'thorough': ['off', [5, 1e-2]]}
+ATOMS_Q3 = {'quick': ['A', 'A-', 'X'], 'thorough': ['A', 'A-', 'B', 'X']}
+LEG_VARIANTS = [{}, {'lf': 0.5}, {'mass': 'mid'}, {'lf': 0.5, 'mass': 'max'}]  # what may differ between two calls
+
+
+def _leg(atom, table='sample', **kw):
+    leg = {k: SPINE[k] for k in ('route', 'oe', 'de', 'table', 'lf', 'mass')}
+    leg['rev'] = False
+    leg.update(ATOMS[atom])
+    leg['table'] = table
+    leg.update(kw)
+    return leg
+
+
+def _seq_case(sub, legs, it='off'):
+    return {'sub': sub, 'steps': list(SEQ_STEPS), 'iter': it, 'legs': legs}
+
+
 def sublattices(tier, seed):
     subs = []
     subs.append({
@@ -244,6 +291,25 @@ def sublattices(tier, seed):
         'name': 'L: ladder of short routes (too short ... just flyable) x tables x steps',
         'axes': {'route': LADDER, 'table': lt, 'steps (1/n per phase)': ls},
         'cases': [_case('L', route=r, steps=st, table=t) for r in LADDER for t in lt for st in ls],
+    })  # fmt: skip
+    a2 = ATOMS_Q2[tier]
+    subs.append({
+        'name': 'Q2: ordered pairs of missions on one builder x table of each call x iteration option',
+        'axes': {'first mission': a2, 'second mission': a2, 'tables (first, second)': TABLE_PAIRS[tier], 'iterate': ITERS_Q[tier],
+                 'atoms': {k: ATOMS[k] for k in a2}},
+        'cases': [_seq_case('Q2', [_leg(x, tp[0]), _leg(y, tp[1])], it) for x in a2 for y in a2 for tp in TABLE_PAIRS[tier] for it in ITERS_Q[tier]],
+    })  # fmt: skip
+    a3 = ATOMS_Q3[tier]
+    subs.append({
+        'name': 'Q3: ordered triples of missions on one builder',
+        'axes': {'first': a3, 'second': a3, 'third': a3, 'atoms': {k: ATOMS[k] for k in a3}},
+        'cases': [_seq_case('Q3', [_leg(x), _leg(y), _leg(z)]) for x in a3 for y in a3 for z in a3],
+    })  # fmt: skip
+    av = ['A', 'A-']
+    subs.append({
+        'name': 'QV: pairs on one builder, load factor / explicit starting mass changing between the calls',
+        'axes': {'first mission': av, 'second mission': av, 'first call': LEG_VARIANTS, 'second call': LEG_VARIANTS},
+        'cases': [_seq_case('QV', [_leg(x, **v1), _leg(y, **v2)]) for x in av for y in av for v1 in LEG_VARIANTS for v2 in LEG_VARIANTS],
     })  # fmt: skip
     subs.append({
         'name': 'M: load factor x starting mass x mass iteration x routes',
@@ -323,19 +389,25 @@ def worker_init(tier, seed):
             raise HarnessError(f'table {k}: ceiling {pm.maximum_altitude_ft} ft, harness declares {CEILING_FT[k]}')
 
 
-def _builder(case):
+def _new_builder(case):
     tb = _STATE['tb']
+    steps = [s if isinstance(s, int) else tuple(s) for s in case['steps']]
+    it = case['iter'] if case['iter'] == 'off' else tuple(case['iter'])
+    fr = [(1.0 / s) if isinstance(s, int) else (float(s[0]) / float(s[1])) for s in steps]
+    if it == 'off':
+        opts = tb.Options(iterate_mass=False)
+    else:
+        opts = tb.Options(iterate_mass=True, max_mass_iters=int(it[0]), mass_iter_reltol=float(it[1]))
+    return tb.LegacyBuilder(options=opts, legacy_options=tb.LegacyOptions(frac_step_clm=fr[0], frac_step_crz=fr[1], frac_step_des=fr[2]))
+
+
+def _builder(case):
     steps = [s if isinstance(s, int) else tuple(s) for s in case['steps']]
     it = case['iter'] if case['iter'] == 'off' else tuple(case['iter'])
     key = (tuple(steps), it)
     b = _STATE['builders'].get(key)
     if b is None:
-        fr = [(1.0 / s) if isinstance(s, int) else (float(s[0]) / float(s[1])) for s in steps]
-        if it == 'off':
-            opts = tb.Options(iterate_mass=False)
-        else:
-            opts = tb.Options(iterate_mass=True, max_mass_iters=int(it[0]), mass_iter_reltol=float(it[1]))
-        b = tb.LegacyBuilder(options=opts, legacy_options=tb.LegacyOptions(frac_step_clm=fr[0], frac_step_crz=fr[1], frac_step_des=fr[2]))
+        b = _new_builder(case)
         _STATE['builders'][key] = b
     return b
 
@@ -348,14 +420,15 @@ def _explicit_mass(case, pm):
     return {'min': ms[0], 'mid': 0.5 * (ms[0] + ms[-1]), 'max': ms[-1], 'above-max': 1.05 * ms[-1]}[m]
 
 
-def fly(case):
-    """('ok', trajectory) or ('raise', exception)."""
+def fly(case, builder=None):
+    """('ok', trajectory) or ('raise', exception).  `case` is a single-mission case or one leg of a
+    sequence (then `builder` is the sequence's own builder)."""
     pm = _STATE['tables'][case['table']]
-    o, d = route_codes(case['route'], case['oe'], case['de'])
+    o, d = case_codes(case)
     mission = _STATE['Mission'](
         origin=o, destination=d, departure=_STATE['dep'], arrival=_STATE['arr'], load_factor=float(case['lf']), aircraft_type='738'
     )  # fmt: skip
-    b = _builder(case)
+    b = builder if builder is not None else _builder(case)
     sm = _explicit_mass(case, pm)
     try:
         if sm is None:
@@ -461,7 +534,29 @@ def _group(findings, tag_of):
 
 
 def run_case(case):
-    kind, res = fly(case)
+    if 'legs' in case:
+        return run_sequence(case)
+    return judge(case, *fly(case))
+
+
+def run_sequence(case):
+    """Several missions on ONE builder created here; each returned trajectory goes to the monitor."""
+    b = _new_builder(case)
+    outcomes, vio, nontrivial = [], [], False
+    for k, leg in enumerate(case['legs']):
+        r = judge(leg, *fly(leg, builder=b))
+        outcomes.append(r['outcome'])
+        nontrivial = nontrivial or bool(r['nontrivial'])
+        o, d = case_codes(leg)
+        for v in r['violations']:
+            v = dict(v)
+            v['detail'] = f'call {k + 1} of {len(case["legs"])} on one builder ({o}->{d}, table {leg["table"]}; earlier calls: ' \
+                          f'{["->".join(case_codes(p)) for p in case["legs"][:k]]}): ' + v['detail']
+            vio.append(v)
+    return {'outcome': 'sequence:' + ' | '.join(outcomes), 'nontrivial': nontrivial, 'violations': vio}
+
+
+def judge(case, kind, res):
     if kind == 'raise':
         return {'outcome': refusal_class(res), 'nontrivial': True, 'violations': []}
     traj = res
@@ -473,7 +568,7 @@ def run_case(case):
     except Exception as e:  # noqa: BLE001
         return {'outcome': 'flown:unreadable', 'nontrivial': True,
                 'violations': [V('shape', f'returned trajectory cannot be read: {type(e).__name__}: {e}')]}  # fmt: skip
-    o, d = route_codes(case['route'], case['oe'], case['de'])
+    o, d = case_codes(case)
     spec = {'o': airport_position(o), 'd': airport_position(d), 'ceiling': CEILING_FT[case['table']] * FT}
     obs = dict(pts)
     obs.update(starting_mass=meta['starting_mass'], total_fuel_mass=meta['total_fuel_mass'], n_climb=meta['n_climb'], n_cruise=meta['n_cruise'])  # fmt: skip
@@ -560,13 +655,18 @@ def observe(case):
     """Order/history independence: bit-level digest of what the (shared) builder returns."""
     import hashlib
 
-    kind, res = fly(case)
-    if kind == 'raise':
-        return ['raise', type(res).__name__, str(res)[:200]]
-    h = hashlib.sha1()
-    for f in mon.POINT_FIELDS:
-        h.update(np.ascontiguousarray(np.array(getattr(res, f), dtype=float)).tobytes())
-    return ['ok', len(res), h.hexdigest(), _meta_key(read_meta(res))]
+    def digest(kind, res):
+        if kind == 'raise':
+            return ['raise', type(res).__name__, str(res)[:200]]
+        h = hashlib.sha1()
+        for f in mon.POINT_FIELDS:
+            h.update(np.ascontiguousarray(np.array(getattr(res, f), dtype=float)).tobytes())
+        return ['ok', len(res), h.hexdigest(), _meta_key(read_meta(res))]
+
+    if 'legs' in case:
+        b = _new_builder(case)
+        return [digest(*fly(leg, builder=b)) for leg in case['legs']]
+    return digest(*fly(case))
 
 
 # ------------------------------------------------------------------ stand-alone replay (AEIC API only)
@@ -597,9 +697,9 @@ def replay_test_source(v):
     import json
 
     kind, case = v['kind'], v['case']
-    if kind not in _ASSERT or case['table'] not in ('sample', 'legacy'):
+    if 'legs' in case or kind not in _ASSERT or case['table'] not in ('sample', 'legacy'):
         return None
-    o, d = route_codes(case['route'], case['oe'], case['de'])
+    o, d = case_codes(case)
     fr = [f'1 / {s}' if isinstance(s, int) else f'{s[0]} / {s[1]}' for s in case['steps']]
     if case['iter'] == 'off':
         opts = 'tb.Options(iterate_mass=False)'
